@@ -6,7 +6,7 @@ PROPS = 'Props/C08.v'
 
 
 def gen_cases(rng, tier):
-    nbig, nsmall, nwc = (3, 70, 20) if tier == 'quick' else (100, 2000, 300)
+    nbig, nsmall, nwc = (5, 120, 25) if tier == 'quick' else (100, 2000, 300)
     cases = [dict(mode='laws', ops=[dict(op='w', kind=1, seed=rng.randrange(1, 1 << 20), len=wrlib.BS),
                                     dict(op='w', kind=0, seed=0, len=0), dict(op='w', kind=2, seed=3, len=wrlib.BS),
                                     dict(op='w', kind=1, seed=9, len=rng.randrange(1, 5000))])]
@@ -64,6 +64,7 @@ CLAIM = dict(
          'exactly the written data; it ends with the 28-byte EOF marker iff the writer was closed; the bytes are the same for every writer concurrency and schedule. '
          'The byte-level model (gzip header as compress/gzip writes it, BSIZE back-patch as writeBlock does it, read off the source by gen/) is compared with the real bytes on every run.',
     note='DEFLATE/CRC-32 as Section hypotheses, validated at run time. The back-patch position is extracted from writer.go on every run; the first-occurrence search of the original code is '
-         'refuted in Coq (members_wellformed_first_index_refuted) and was repaired in /repo (fix: commit). Header settings that make gzip fail or overflow 64 KiB are outside the quantifier (error paths: C09).',
+         'refuted in Coq (members_wellformed_first_index_refuted) and was repaired in /repo (fix: commit). Header settings that make gzip fail or overflow 64 KiB are outside the quantifier (error paths: C09). '
+         'eof_iff_closed_ok_partial proves only: closed without error => marker present (converse checked at run time only).',
     technique='Coq proof over byte-level model + source-extracted patch shape + vm_compute correspondence + independent RFC1952/BGZF parser',
     design='6/C08')
